@@ -4,6 +4,7 @@ package putsvc
 
 import (
 	iec "github.com/nspcc-dev/neofs-node/internal/ec"
+	isessions "github.com/nspcc-dev/neofs-node/internal/sessions"
 	cid "github.com/nspcc-dev/neofs-sdk-go/container/id"
 	"github.com/nspcc-dev/neofs-sdk-go/netmap"
 	oid "github.com/nspcc-dev/neofs-sdk-go/object/id"
@@ -61,3 +62,9 @@ func (x verifPutNetwork) GetContainerNodes(id cid.ID) (ContainerNodes, error) {
 
 // VerifPutWrapNetwork adapts n to [NeoFSNetwork].
 func VerifPutWrapNetwork(n VerifPutNetwork) NeoFSNetwork { return verifPutNetwork{n} }
+
+// VerifWithObjectSessionsCache is [WithSessionsCache] with a real LRU cache of
+// the given size (the cache type lives in an internal package).
+func VerifWithObjectSessionsCache(size int) Option {
+	return WithSessionsCache(isessions.NewObjectSessionsCache(size))
+}
